@@ -200,13 +200,19 @@ func operand(name string) *sbom.NodeList {
 		nl = &sbom.NodeList{Nodes: []*sbom.Node{{Id: "a", Name: "only-name"}}, RootElements: []string{"a"}}
 	case "empty":
 		nl = &sbom.NodeList{}
+	case "idless":
+		// ill-formed operands: a node without identifier next to a regular one (and an edge from it); two node objects
+		// carrying one identifier. Independence is owed for them as for any other value.
+		nl = &sbom.NodeList{Nodes: []*sbom.Node{n("", "I"), n("a", "I")}, Edges: []*sbom.Edge{e("", sbom.Edge_contains, "a")}, RootElements: []string{""}}
+	case "repeated-id":
+		nl = &sbom.NodeList{Nodes: []*sbom.Node{n("b", "R"), n("b", "S")}, Edges: []*sbom.Edge{e("b", sbom.Edge_contains, "b")}, RootElements: []string{"b", "b"}}
 	default:
 		panic(name)
 	}
 	return spareList(nl)
 }
 
-var operandNames = []string{"abc", "bcd", "ae", "a-sparse", "a-aliased", "ab-empty-maps", "empty"}
+var operandNames = []string{"abc", "bcd", "ae", "a-sparse", "a-aliased", "ab-empty-maps", "empty", "idless", "repeated-id"}
 
 // listDeviations enumerates deviations at every field path of a node list: the
 // list's own fields, every node (full recursion), every edge.
